@@ -21,6 +21,8 @@ WORK = os.environ.get("VERIF_WORK", os.path.join(VERIF, ".work"))
 SPEC = os.path.join(VERIF, "spec")
 HARNESS = os.path.join(VERIF, "harness")
 EVID = os.environ.get("VERIF_EVID", os.path.join(VERIF, "evidence"))
+for _s in ("cfg", "traces", "mc", "sessions", "tlc", "build"):
+    os.makedirs(os.path.join(WORK, _s), exist_ok=True)
 TLA_JAR = "/opt/veriftools/tla/tla2tools.jar:/opt/veriftools/tla/CommunityModules-deps.jar"
 NCPU = os.cpu_count() or 4
 
